@@ -7,11 +7,12 @@
     the table resolve_jumps indexes; (3) the x86-64 encoders (emit_alu*, emit_mov, emit_push/pop, emit_load, emit_store,
     emit_load_imm with REX / ModRM / displacement selection) append exactly the bytes of the encoding specification X86Enc.v
     for every register, displacement and immediate; (4) for the 38 ALU opcodes emitted directly, the emitted instruction
-    sequence computes the ISA value under the x86 semantics X86Sem.v.  The other opcodes (mul/div/mod shuffling, memory,
-    jumps, calls, prologue/epilogue) and what the CPU does with the bytes are exercised by checks/C03.py (every opcode x every register
+    sequence computes the ISA value under the x86 semantics X86Sem.v, and for the 44 conditional jumps the emitted cmp/test +
+    condition code branch iff the ISA condition holds.  The other opcodes (mul/div/mod shuffling, memory, calls,
+    prologue/epilogue), the jump displacement fix-ups and what the CPU does with the bytes are exercised by checks/C03.py (every opcode x every register
     pair x boundary immediates / displacements x control-flow shapes x 4 VM kinds) against the interpreter. *)
 From Coq Require Import ZArith List.
-From RbpfV Require Import MachInt Ebpf WellFormed Verifier JitLogicProofs X86Enc JitEncProofs X86Sem ClAluProofs JitArmsProofs.
+From RbpfV Require Import MachInt Ebpf WellFormed Verifier JitLogicProofs X86Enc JitEncProofs X86Sem ClAluProofs ClJmpProofs JitArmsProofs.
 From RbpfV.gen Require Import JitLogic JitEnc JitArms.
 Import ListNotations.
 Open Scope Z_scope.
@@ -66,6 +67,14 @@ Theorem C03_alu_arms : forall i R d s,
   Forall (fun o => arm_ok o i R d s) jit_alu_ops.
 Proof. exact jit_alu_arms. Qed.
 
+(** per-opcode emission, conditional jumps: for each of the 44 opcodes the flag-setting instruction (cmp / test, 64- or 32-bit,
+    register or sign-extended immediate) and the condition code handed to emit_jcc make the x86 branch taken exactly when
+    the ISA condition holds *)
+Theorem C03_jump_conditions : forall i R d s,
+  (forall r, 0 <= R r < 2 ^ 64) ->
+  Forall (fun o => xcond (fst (gen_jit_jmp o i d s)) (snd (gen_jit_jmp o i d s)) R = Some (isa_jump_taken o i (R d) (R s))) cl_jmp_ops.
+Proof. exact jit_jmp_arms. Qed.
+
 (** non-vacuity: `mov rbx, [r13+0]` needs a displacement byte; `mov [rdi-129], r9d` takes the 4-byte form *)
 Example C03_enc_example :
   gen_emit_load [] 64 13 3 0 = Ok [0x49; 0x8b; 0x5d; 0x00] /\
@@ -79,5 +88,6 @@ Print Assumptions C03_enc_load.
 Print Assumptions C03_enc_store.
 Print Assumptions C03_enc_load_imm.
 Print Assumptions C03_alu_arms.
+Print Assumptions C03_jump_conditions.
 Print Assumptions C03_jump_targets.
 Print Assumptions C03_call_targets.
